@@ -134,6 +134,31 @@ func Explore(h Harness, bound int, shard, nshards int, deadline time.Time) Stats
 		}
 		return f
 	}
+	// probes: the canonical order reversed / rotated at every free choice point (cheap, and they
+	// vary all orderings at once: arrival-order dependence shows here first)
+	if shard == 0 && bound == 0 {
+		for k := 1; k <= 3; k++ {
+			if h.OnSchedule != nil {
+				h.OnSchedule()
+			}
+			bodies, verdict := h.Setup()
+			xp := RunProbe(bodies, nil, h.Policy, false, false, k)
+			vp, endp := xp.Violation, ""
+			if vp == "" {
+				vp, endp = verdict(xp)
+			}
+			if !record(xp, vp, endp, nil) {
+				if st.Violation != nil { // keep the full choice list: it is not "prefix then zeros"
+					ch := make([]int, len(xp.Points))
+					for i, p := range xp.Points {
+						ch[i] = p.Chosen
+					}
+					st.Violation.Schedule = ch
+				}
+				return st
+			}
+		}
+	}
 	x, v, end := runOnce(h, nil, false)
 	if shard == 0 {
 		if !record(x, v, end, nil) {
